@@ -276,15 +276,15 @@ func (s *scriptReader) Read(p []byte) (int, error) {
 // convert runs one `doh` request through the real RequestToDnsMsg and returns a closure that renders the result LATER:
 // the returned *dns.Msg is kept as it is (it is what dnsFetcher packs and forwards afterwards), the request's own
 // buffers are scribbled over after the conversion, and the summary (incl. Pack) is taken when `late()` is called.
-func convert(f []string) (late func() string) {
-	fixed := func(s string) func() string { return func() string { return s } }
+// buildReq builds the bfe request of a `doh` op (f = its fields); early != "" means the op is not executable.
+func buildReq(f []string) (req *bfe_basic.Request, body []byte, method string, early string) {
 	if len(f) == 8 {
 		f = append(f, "-")
 	}
 	if len(f) != 9 || f[0] != "doh" {
-		return fixed("bad-op")
+		return nil, nil, "", "bad-op"
 	}
-	method := f[1]
+	method = f[1]
 	if method == "-" {
 		method = ""
 	}
@@ -294,7 +294,7 @@ func convert(f []string) (late func() string) {
 		for _, v := range strings.Split(f[2], ",") {
 			b, ok := vh.UnHex(v)
 			if !ok {
-				return fixed("bad-op")
+				return nil, nil, "", "bad-op"
 			}
 			q.Add("dns", string(b))
 		}
@@ -303,31 +303,41 @@ func convert(f []string) (late func() string) {
 	ra, ok1 := ipOf(f[4])
 	ca, ok2 := ipOf(f[5])
 	if !ok || !ok1 || !ok2 {
-		return fixed("bad-op")
+		return nil, nil, "", "bad-op"
 	}
 	w := body
 	if f[6] != "=" {
 		if w, ok = vh.UnHex(f[6]); !ok {
-			return fixed("bad-op")
+			return nil, nil, "", "bad-op"
 		}
 	}
 	if oracle(w) != f[7] {
-		return fixed("bad-oracle")
+		return nil, nil, "", "bad-oracle"
 	}
 	body = append([]byte(nil), body...)
 	rd, ok := newScriptReader(body, f[8])
 	if !ok {
-		return fixed("bad-op")
+		return nil, nil, "", "bad-op"
 	}
 	hr := &bfe_http.Request{Method: method, URL: &url.URL{Path: "/dns-query", RawQuery: q.Encode()},
 		Body: rd, Header: bfe_http.Header{}}
-	req := &bfe_basic.Request{HttpRequest: hr, RemoteAddr: ra, ClientAddr: ca}
+	return &bfe_basic.Request{HttpRequest: hr, RemoteAddr: ra, ClientAddr: ca}, body, method, ""
+}
+
+// convert runs one `doh` request through the real RequestToDnsMsg and returns a closure that renders the result LATER:
+// the returned *dns.Msg is kept as it is (it is what dnsFetcher packs and forwards afterwards), the request's own
+// buffers are scribbled over after the conversion, and the summary (incl. Pack) is taken when `late()` is called.
+func convert(f []string) (late func() string) {
+	req, body, method, early := buildReq(f)
+	if early != "" {
+		return func() string { return early }
+	}
 	m, err := mod_doh.RequestToDnsMsg(req)
 	// the request is gone: its buffers are reused by whoever comes next
 	for i := range body {
 		body[i] = 0xA5
 	}
-	hr.URL.RawQuery = ""
+	req.HttpRequest.URL.RawQuery = ""
 	sfx := ""
 	if method == "POST" {
 		sfx = fmt.Sprintf(" lim=%d", mod_doh.VerifMaxPostMsgLength())
@@ -338,6 +348,185 @@ func convert(f []string) (late func() string) {
 		}
 		return summary(m) + sfx
 	}
+}
+
+// ---- fx: the module's real handler: condition -> IsSecure -> DnsClient.Fetch (RequestToDnsMsg, exchangeWithRetry over UDP to
+// a fake upstream on loopback, DnsMsgToResponse).
+// op `fx <secure 0|1> <path hex> <retryMax> <upstream script> <answer ttls>;<doh op>`
+//   upstream script: one letter per received query: r = proper reply, g = garbage datagram, i = reply with a wrong id
+//   (after the script: r).  No behaviour depends on a timeout (client timeout 30 s).
+// result `<goon|resp> <status|-> sends=<n> fwd=<same|diff|-> <content-type|-> <max-age|-> body=<same|diff|->`
+//   fwd = every datagram the upstream received equals Pack() of the message RequestToDnsMsg returns for this request
+
+var (
+	upConn   net.PacketConn
+	upPkts   = make(chan []byte, 64)
+	upScript = make(chan string, 1)
+	upTTLs   []uint32
+	upReply  []byte // the proper reply last sent
+	handlers = map[string]func(*bfe_basic.Request) (int, *bfe_http.Response){}
+)
+
+func upInit() {
+	if upConn != nil {
+		return
+	}
+	var err error
+	if upConn, err = net.ListenPacket("udp", "127.0.0.1:0"); err != nil {
+		panic(err)
+	}
+	go func() {
+		buf := make([]byte, 65536)
+		script := ""
+		for {
+			n, addr, err := upConn.ReadFrom(buf)
+			if err != nil {
+				return
+			}
+			select {
+			case s := <-upScript:
+				script = s
+			default:
+			}
+			pkt := append([]byte(nil), buf[:n]...)
+			c := byte('r')
+			if len(script) > 0 {
+				c, script = script[0], script[1:]
+			}
+			var out []byte
+			id := uint16(0)
+			if n >= 2 {
+				id = uint16(pkt[0])<<8 | uint16(pkt[1])
+			}
+			switch c {
+			case 'g':
+				out = []byte{1, 2, 3}
+			case 'i':
+				m := buildReply(upTTLs, nil, nil)
+				m.Id = id + 1
+				out, _ = m.Pack()
+			default:
+				m := buildReply(upTTLs, nil, nil)
+				m.Id = id
+				out, _ = m.Pack()
+				upReply = out
+			}
+			upPkts <- pkt
+			upConn.WriteTo(out, addr)
+		}
+	}()
+}
+
+func execFx(op string) string {
+	parts := strings.SplitN(strings.TrimPrefix(op, "fx "), ";", 2)
+	if len(parts) != 2 {
+		return "bad-op"
+	}
+	h := strings.Fields(parts[0])
+	if len(h) != 5 {
+		return "bad-op"
+	}
+	path, ok := vh.UnHex(h[1])
+	retry, err := strconv.Atoi(h[2])
+	ttls, ok2 := ttlList(h[4])
+	if !ok || !ok2 || err != nil || retry < 0 || retry > 5 {
+		return "bad-op"
+	}
+	sub := strings.Fields(parts[1])
+	req, _, _, early := buildReq(sub)
+	if early != "" {
+		return early
+	}
+	req2, _, _, _ := buildReq(sub) // an identical request, converted separately: what must be forwarded
+	var want []byte
+	if m2, e2 := mod_doh.RequestToDnsMsg(req2); e2 == nil {
+		want, _ = m2.Pack()
+	}
+	upInit()
+	key := h[2]
+	hd := handlers[key]
+	if hd == nil {
+		if hd, err = mod_doh.VerifHandler(`req_path_in("/dns-query", false)`, &mod_doh.DnsConf{Address: upConn.LocalAddr().String(),
+			RetryMax: retry, Timeout: 30000}); err != nil {
+			return "bad-cond"
+		}
+		handlers[key] = hd
+	}
+	req.HttpRequest.URL.Path = string(path)
+	req.Session = &bfe_basic.Session{IsSecure: h[0] == "1"}
+	for len(upPkts) > 0 {
+		<-upPkts
+	}
+	upTTLs = ttls
+	upReply = nil
+	script := h[3]
+	if script == "-" {
+		script = ""
+	}
+	upScript <- script + "."
+	ret, resp := hd(req)
+	select { // the script was not consumed when nothing was sent
+	case <-upScript:
+	default:
+	}
+	sends, fwd := 0, "-"
+	for len(upPkts) > 0 {
+		p := <-upPkts
+		sends++
+		if fwd == "-" {
+			fwd = "same"
+		}
+		if !bytes.Equal(p, want) {
+			fwd = "diff"
+		}
+	}
+	rs := "goon"
+	if ret != 1 { // bfe_module.BfeHandlerGoOn
+		rs = "resp"
+	}
+	if resp == nil {
+		return fmt.Sprintf("%s - sends=%d fwd=%s - - body=-", rs, sends, fwd)
+	}
+	ct, ma, bd := "-", "-", "-"
+	if resp.StatusCode == 200 {
+		ct = resp.Header.Get("Content-Type")
+		ma = resp.Header.Get("Cache-Control")
+		b, _ := ioutil.ReadAll(resp.Body)
+		bd = "diff"
+		if bytes.Equal(b, upReply) && resp.Header.Get("Content-Length") == strconv.Itoa(len(b)) {
+			bd = "same"
+		}
+	}
+	return fmt.Sprintf("%s %d sends=%d fwd=%s %s %s body=%s", rs, resp.StatusCode, sends, fwd, ct, ma, bd)
+}
+
+func genFx(r *vh.Rand) string {
+	sec := "1"
+	if r.Chance(1, 8) {
+		sec = "0"
+	}
+	path := "/dns-query"
+	if r.Chance(1, 8) {
+		path = r.Pick("/other", "/dns-query/", "/DNS-QUERY", "")
+	}
+	retry := r.Intn(4)
+	var sc []byte
+	for i, n := 0, r.Intn(6); i < n; i++ {
+		sc = append(sc, "rggi"[r.Intn(4)])
+	}
+	script := string(sc)
+	if script == "" {
+		script = "-"
+	}
+	var xs []string
+	for i, n := 0, r.Intn(5); i < n; i++ {
+		xs = append(xs, strconv.Itoa(pick(r, 0, 1, 30, 60, 300, 3600, 86400, 2147483647, r.Intn(100000))))
+	}
+	tt := "-"
+	if len(xs) > 0 {
+		tt = strings.Join(xs, ",")
+	}
+	return fmt.Sprintf("fx %s %s %d %s %s;%s", sec, hexs(path), retry, script, tt, genDoh(r))
 }
 
 // op `bat <doh op>;<doh op>;...` : all requests are converted first (the messages are held, as concurrent requests
@@ -359,6 +548,9 @@ func execBatch(op string) string {
 func exec(op string) string {
 	if strings.HasPrefix(op, "bat ") {
 		return execBatch(op)
+	}
+	if strings.HasPrefix(op, "fx ") {
+		return execFx(op)
 	}
 	f := strings.Fields(op)
 	if len(f) > 0 && f[0] == "rsp" {
@@ -518,6 +710,9 @@ func genWire(r *vh.Rand) []byte {
 func gen(r *vh.Rand) string {
 	if r.Chance(1, 8) {
 		return genRsp(r)
+	}
+	if r.Chance(1, 6) {
+		return genFx(r)
 	}
 	if r.Chance(2, 5) { // a batch: 2..5 requests converted before any of the messages is packed
 		var subs []string
